@@ -98,9 +98,24 @@ def rebin(x, d, sample=False):
                     if p < d0[k] - 1:
                         sliceobj1[k] = slice(fp + 1, fp + 2)
                         rshape = r[tuple(sliceobj)].shape
-                        r[tuple(sliceobj)] = (xx[tuple(sliceobj0)].reshape(rshape) +
-                                              (p - fp)*(xx[tuple(sliceobj1)] -
-                                                        xx[tuple(sliceobj0)]).reshape(rshape))
+                        if xx.dtype.kind == 'u' or xx.dtype.kind == 'i':
+                            #
+                            # Exact integer arithmetic: the difference must
+                            # not wrap around for unsigned types, and an
+                            # interpolant that is an exact integer must not
+                            # be truncated to the integer below it.
+                            #
+                            m = d[k]//d0[k]
+                            lo = xx[tuple(sliceobj0)].astype('i8')
+                            hi = xx[tuple(sliceobj1)].astype('i8')
+                            num = lo*m + (i % m)*(hi - lo)
+                            q = abs(num)//m
+                            q[num < 0] *= -1
+                            r[tuple(sliceobj)] = q.reshape(rshape)
+                        else:
+                            r[tuple(sliceobj)] = (xx[tuple(sliceobj0)].reshape(rshape) +
+                                                  (p - fp)*(xx[tuple(sliceobj1)] -
+                                                            xx[tuple(sliceobj0)]).reshape(rshape))
                     else:
                         r[tuple(sliceobj)] = xx[tuple(sliceobj0)]
         elif d[k] == d0[k]:
